@@ -426,3 +426,49 @@ Proof.
     cbn [app star hi_open andb]. rewrite Hy. apply fst_orelse_tick. cbn [option_map].
     apply IH; auto. cbn [List.length] in Hlo. lia.
 Qed.
+
+(* ---------------------------------------------------------------- lower bounds on the step count *)
+Lemma cost_orelse_ge o f : (cost o <= cost (orelse o f))%N.
+Proof. destruct o as [[c|] n]; unfold orelse, cost; cbn [fst snd]; lia. Qed.
+
+Lemma orelse_none n f : orelse (None, n) f = (fst (f tt), (n + snd (f tt))%N).
+Proof. reflexivity. Qed.
+
+(* an unbounded greedy repeat walks over the whole run of its set, whatever follows *)
+Lemma star_cost_ge cs k : forall s lo c, forallb (in_cset cs) s = true -> (len s <= cost (star cs lo None s c k))%N.
+Proof.
+  induction s as [|x s IH]; intros lo c H.
+  - rewrite len_nil. lia.
+  - cbn [forallb] in H. apply andb_true_iff in H as [Hx Hs].
+    cbn [star hi_open andb]. rewrite Hx. cbn [option_map].
+    eapply N.le_trans; [|apply cost_orelse_ge]. rewrite cost_tick, len_cons.
+    specialize (IH (pred lo) c Hs). lia.
+Qed.
+
+(* a failed attempt at one position is paid in full, and the search goes on at the next one *)
+Lemma search_skip r x s : fst (m_top r (x :: s)) = None ->
+  cost (search_from r (x :: s)) = (cost (m_top r (x :: s)) + 1 + cost (search_from r s))%N.
+Proof.
+  intros H. cbn [search_from]. destruct (m_top r (x :: s)) as [o n]. cbn [fst] in H. subst o.
+  unfold tick. cbn [fst snd]. rewrite orelse_none. unfold cost. cbn [snd]. reflexivity.
+Qed.
+
+Lemma search_step_le r x s :
+  (cost (search_from r (x :: s)) <= cost (m_top r (x :: s)) + 1 + cost (search_from r s))%N.
+Proof.
+  cbn [search_from]. eapply N.le_trans; [apply cost_orelse|]. cbn beta. rewrite cost_tick. lia.
+Qed.
+
+Lemma search_nil_le r : (cost (search_from r []) <= cost (m_top r []) + 1)%N.
+Proof.
+  cbn [search_from]. eapply N.le_trans; [apply cost_orelse|]. cbn beta. rewrite cost_tick. unfold cost. cbn [snd]. lia.
+Qed.
+
+(* literal characters *)
+Lemma in_cset_lit_eqb a x : in_cset (CS false [(a, a)]) x = (x =? a)%Z.
+Proof.
+  unfold in_cset, in_ranges, in_range. cbn [cs_neg cs_ranges existsb fst snd]. rewrite orb_false_r.
+  destruct (Z.eqb_spec x a) as [->|Hne].
+  - rewrite Z.leb_refl. reflexivity.
+  - destruct (Z.leb_spec a x), (Z.leb_spec x a); cbn; try reflexivity; lia.
+Qed.
